@@ -343,6 +343,55 @@ def mv_ignore(ctx):
                 hit.append(1)
                 return ('dom', orient)
         return None
+    # quantifier form (any / all / count == 0 / find().is_none(), directly in the condition or through a local or a
+    # helper): in a register holding a single value whose clock is `o` relative to the Put, each quantifier is P(o)
+    qatoms = {}
+    qprob = []
+
+    def qatom(t):
+        if t[0] not in ('call', 'unop', 'binop'):
+            return None
+        q = quant(facts, t)
+        if q is None:
+            return None
+        if not whole_iteration_over(q['src'], 1, (vf,)):
+            qprob.append('the supersession scan does not range over every stored value')
+            return None
+        seen_ = []
+
+        def cq(a, b, tt, m_=q['m']):
+            sa, sb = subst(a, m_), subst(b, m_)
+            for x, y, orient in ((sa, sb, 'fwd'), (sb, sa, 'rev')):
+                py = param_path(y)
+                if _item_clock_side(x, vf) == 1 and py and py[0] == 2 and py[1][-1:] == ('Put.clock',):
+                    seen_.append(1)
+                    return ('dom', orient)
+            return None
+        cret = interp(facts, q['cb']).ret
+        tb = {o: Evaluator(facts, classify=cq, assumption={'dom': o}).ev(cret) for o in PARTIAL}
+        if not seen_ or any(v is None for v in tb.values()):
+            return None
+        key = versionless(t)
+        if key not in qatoms:
+            qatoms[key] = ('q%d' % len(qatoms), {o: (tb[o] != q['neg']) for o in PARTIAL})
+        return qatoms[key][0]
+    Reach(facts, body, Evaluator(facts, bool_atom=qatom))
+    if qatoms or qprob:
+        res = {}
+        for o in PARTIAL:
+            rc = Reach(facts, body, Evaluator(facts, bool_atom=qatom, assumption={n: tb[o] for n, tb in qatoms.values()}))
+            res[o] = (pb in rc.reachable, rc.must_pass([pb]))
+        # must_pass is relative to the Put arm: compare with the arm's own reachability
+        errs = list(qprob[:1])
+        if not errs:
+            if res[GT][0]:
+                errs.append('a Put dominated by an existing value (Gt) is still stored: a superseded write is shown')
+            bad = [o for o in (LT, EQ, NONE) if not res[o][0]]
+            if bad:
+                errs.append('a Put that is not dominated (%s) is ignored' % bad)
+        ctx.check(not errs, 'push', body, 'Put stored iff no existing clock > Put clock (quantifier form)', errs[0] if errs else '',
+                  line=line, details={'ord(existing clock, put clock) -> (store may, must)': res})
+        return
     if guard is None:
         # quantifier idiom: `if !self.vals.iter().any(|(c, _)| c > &clock) { push }`
         for d in sorted(it.dom[pb], key=lambda x: -it.rpo.index(x)):
